@@ -40,6 +40,15 @@ func c06Configs(thorough bool) (cfgs []poolCfg, bounds []int) {
 			add(poolCfg{Min: 1, Max: 2, EM: engine.SortModel, Method: meth, Clients: [][]reqSpec{{with}, {without}, {with}}}, bc)
 		}
 	}
+	// stop-on-error paths of the staged models: a failing first-stage rule next to healthy ones, the
+	// instance reused by the next request (a rule that is still running would see that request's data)
+	er := reqSpec{Mode: modeError, Other: true}
+	for _, meth := range []string{"ExecuteNConcurrentMConcurrent", "ExecuteNConcurrentMSort", "ExecuteNSortMConcurrent", "ExecuteSelectedNConcurrentMConcurrent"} {
+		for _, nm := range [][2]int{{2, 1}, {1, 2}} {
+			add(poolCfg{Min: 1, Max: 2, EM: engine.SortModel, Method: meth, StopOnErr: true, NM: nm, Clients: [][]reqSpec{{pn, with, er, without}}}, bc)
+			add(poolCfg{Min: 1, Max: 2, EM: engine.SortModel, Method: meth, StopOnErr: true, NM: nm, Clients: [][]reqSpec{{pn}, {with}}}, bc)
+		}
+	}
 	// every execute method x applicable execution model: sequential reuse of one instance (stale keys,
 	// stale result maps) and two overlapping requests
 	for _, m := range gx.PoolMethods {
